@@ -23,6 +23,23 @@ def modelled : List String := [
   "utils.CheckBigIntInField",
   "utils.SetBigIntFromLEBytes",
   "utils.SwapEndianness",
+  "tree.<layout>@constants",
+  "tree.<layout>@ff",
+  "tree.<layout>@keccak256",
+  "tree.<layout>@mimc7",
+  "tree.<layout>@root",
+  "tree.<layout>@utils",
+  "constants.<decls>@constants.go",
+  "ff.<asm>@element_mul_adx_amd64.s",
+  "ff.<asm>@element_mul_amd64.s",
+  "ff.<asm>@element_ops_amd64.s",
+  "ff.<decls>@arith.go",
+  "ff.<decls>@asm.go",
+  "ff.<decls>@asm_noadx.go",
+  "ff.<decls>@doc.go",
+  "ff.<decls>@element.go",
+  "ff.<decls>@element_ops_amd64.go",
+  "ff.<decls>@element_ops_noasm.go",
   "utils.<decls>@utils.go",
   "module.<deps>@go.mod",
   "module.<deps>@go.sum",
@@ -31,9 +48,9 @@ def modelled : List String := [
 
 theorem source_pinned : modelled.all (same I3.Gen.fingerprints) = true := by decide +kernel
 
-theorem function_set_pinned : (["keccak256.", "mimc7.", "utils."] : List String).all (sameKeys I3.Gen.fingerprints) = true := by
+theorem function_set_pinned : (["constants.", "ff.", "keccak256.", "mimc7.", "utils."] : List String).all (sameKeys I3.Gen.fingerprints) = true := by
   decide +kernel
 
-theorem modelled_nonempty : 18 = modelled.length := by decide
+theorem modelled_nonempty : 35 = modelled.length := by decide
 
 end I3.Props.C08
